@@ -356,7 +356,7 @@ class Gen:
         for n in self.prog["vars"]:
             lv = self.leaves[n]
             fill = [l for l in lv if target_hold[l] and not st.hold[l]]
-            rebuild = any(not self.assignable_syntax(l) for l in fill) or (fill and len(lv) > 1 and n not in st.bound)
+            rebuild = any(not self.assignable_syntax(l) for l in fill) or (any(len(l) > 1 for l in fill) and n not in st.bound)
             drop = [l for l in lv if st.hold[l] and (rebuild or not target_hold[l])]
             root = (n,)
             if drop and len(drop) == len(lv) and self.can_own(st, root) and rng.random() < 0.6:
@@ -490,7 +490,7 @@ class Gen:
             opts.append("pr[0]")
         if "o" in st.cb:
             opts.append("o.unwrap()")
-        if "m" in self.prog["vars"] and self.holding(st, ("m",)):
+        if "m" in self.prog["vars"] and "m" in st.bound and self.holding(st, ("m",)):
             opts.append("m.k")
         a = rng.choice(opts)
         if rng.random() < 0.4:
